@@ -143,6 +143,13 @@ def _run(a, prop, work, t0):
         for f in futs:
             results.append(f.result())
 
+    # a shard that died (killed by the kernel under memory pressure, a transient fork failure) is run once more on its own; the
+    # workload of a shard is a pure function of (property, tier, seed, shard), so the retry observes exactly what the first try would have
+    for idx, r in enumerate(results):
+        if r["status"] == "crash":
+            sys.stderr.write(f"shard {r['shard']} crashed (rc={r.get('rc')}): retrying once\n")
+            results[idx] = run_shard(prop, a.tier, a.seed, r["shard"], a.repo, work, budget, a.replay)
+            results[idx]["retried_after_crash"] = True
     bad = [r for r in results if r["status"] != "ok"]
     ok = [r for r in results if r["status"] == "ok"]
     m = H.merge(ok)
